@@ -287,7 +287,7 @@ class FlushLoop(LoopSpec):
         c = ctx()
         u = self.unit
         G = u.G
-        obj = fr.lookup("self")
+        obj = fr.contract_lookup("self")
         # entry: INV holds of the state that reaches the loop
         sk0 = mk_skolems(c, "_e")
         u.known_instances(c, sk0)
@@ -455,7 +455,7 @@ class CloseLoop(LoopSpec):
         c = ctx()
         u = self.unit
         G = u.G
-        obj = fr.lookup("self")
+        obj = fr.contract_lookup("self")
         sk0 = mk_skolems(c, "_ce")
         u.known_instances(c, sk0)
         st_e = WState(obj)
